@@ -29,9 +29,12 @@ package mpx
 // arbitrary value (the peer's window updates may arrive at any time); nAdd / lastAdd record the
 // debits this call made.
 
+// ghost(errMade, 0) == 1: an error status was produced during this call (set by the error
+// constructors and by every assumed function that returns a non-OK status).
 //@ func mpxErrorf
 //@   trusted
-//@   ensures result.Code != "ok"
+//@   modifies ghost.errMade at 0
+//@   ensures result.Code != "ok" && ghost(errMade, 0) == 1
 
 //@ func (*channelState).decrementSendWindow
 //@   safety[C07]
@@ -97,18 +100,29 @@ package mpx
 //@   trusted
 //@ func (*connReader).readMessage
 //@   trusted
+//@   modifies ghost.errMade at 0
+//@   ensures result1.Code != "ok" ==> ghost(errMade, 0) == 1
+//@   ensures result1.Code == "ok" ==> ghost(errMade, 0) == old(ghost(errMade, 0))
 //@ func mpxError
 //@   trusted
-//@   ensures result.Code != "ok"
+//@   modifies ghost.errMade at 0
+//@   ensures err != nil ==> result.Code != "ok" && ghost(errMade, 0) == 1
+//@   ensures err == nil ==> result.Code == "ok" && ghost(errMade, 0) == old(ghost(errMade, 0))
 
 //@ func (*connReader).readRequest
 //@   safety[C11]
 //@   requires r != nil
+//@   modifies ghost.errMade at 0
+//@   ensures[C11] result1.Code != "ok" ==> ghost(errMade, 0) == 1
+//@   ensures[C11] result1.Code == "ok" ==> ghost(errMade, 0) == old(ghost(errMade, 0))
 //@   assert[C11] after req: code == 1 && st.Code == "ok"
 
 //@ func (*connReader).readResponse
 //@   safety[C11]
 //@   requires r != nil
+//@   modifies ghost.errMade at 0
+//@   ensures[C11] result1.Code != "ok" ==> ghost(errMade, 0) == 1
+//@   ensures[C11] result1.Code == "ok" ==> ghost(errMade, 0) == old(ghost(errMade, 0))
 //@   assert[C11] after resp: code == 2 && st.Code == "ok"
 
 //@ func (*conn).handshakeAsServer
@@ -116,6 +130,7 @@ package mpx
 //@   requires c != nil && c.reader != nil && c.writer != nil && c.handshaked != nil
 //@   requires ghost(flagSet, c.handshaked) == 0
 //@   modifies ghost.flagSet
+//@   modifies ghost.errMade at 0
 //@   ensures[C11] (result.Code == "ok") <==> ghost(flagSet, c.handshaked) == 1
 //@   assert[C11] after req: line == "SpecMPX/1\n"
 //@   assert[C11] after comps: ok
@@ -127,6 +142,7 @@ package mpx
 //@   requires c != nil && c.reader != nil && c.writer != nil && c.handshaked != nil
 //@   requires ghost(flagSet, c.handshaked) == 0
 //@   modifies ghost.flagSet
+//@   modifies ghost.errMade at 0
 //@   ensures[C11] (result.Code == "ok") <==> ghost(flagSet, c.handshaked) == 1
 //@   assert[C11] after resp: line == "SpecMPX/1\n"
 //@   assert[C11] after comp: v == 10 && ok
@@ -136,6 +152,7 @@ package mpx
 //@   requires c != nil && c.reader != nil && c.writer != nil && c.handshaked != nil
 //@   requires ghost(flagSet, c.handshaked) == 0
 //@   modifies ghost.flagSet
+//@   modifies ghost.errMade at 0
 //@   ensures[C11] (result.Code == "ok") <==> ghost(flagSet, c.handshaked) == 1
 
 //@ func (*conn).free
@@ -148,33 +165,57 @@ package mpx
 //@   requires c != nil && c.reader != nil && c.writer != nil && c.handshaked != nil
 //@   requires ghost(flagSet, c.handshaked) == 0
 //@   modifies ghost.flagSet
+//@   modifies ghost.errMade at 0
 //@   assert[C11] after recv: ghost(flagSet, c.handshaked) == 1
 
 // The per-message receivers touch the channel map, pools and channel state (C07, C16 and C18 carry
 // their contracts); for the dispatch rule they are assumed to return an arbitrary status.
 //@ func (*conn).receiveOpen
 //@   trusted
+//@   modifies ghost.errMade at 0
+//@   ensures result.Code != "ok" ==> ghost(errMade, 0) == 1
+//@   ensures result.Code == "ok" ==> ghost(errMade, 0) == old(ghost(errMade, 0))
 //@ func (*conn).receiveClose
 //@   trusted
+//@   modifies ghost.errMade at 0
+//@   ensures result.Code != "ok" ==> ghost(errMade, 0) == 1
+//@   ensures result.Code == "ok" ==> ghost(errMade, 0) == old(ghost(errMade, 0))
 //@ func (*conn).receiveData
 //@   trusted
+//@   modifies ghost.errMade at 0
+//@   ensures result.Code != "ok" ==> ghost(errMade, 0) == 1
+//@   ensures result.Code == "ok" ==> ghost(errMade, 0) == old(ghost(errMade, 0))
 //@ func (*conn).receiveWindow
 //@   trusted
+//@   modifies ghost.errMade at 0
+//@   ensures result.Code != "ok" ==> ghost(errMade, 0) == 1
+//@   ensures result.Code == "ok" ==> ghost(errMade, 0) == old(ghost(errMade, 0))
 
+// No error is swallowed: OK is returned only if no error status was produced during the call.
 //@ func (*conn).receiveBatch
 //@   safety[C11]
 //@   requires c != nil
-//@   loop 1 invariant 0 <= i
+//@   modifies ghost.errMade at 0
+//@   ensures[C11] result.Code != "ok" ==> ghost(errMade, 0) == 1
+//@   ensures[C11] result.Code == "ok" ==> ghost(errMade, 0) == old(ghost(errMade, 0))
+//@   loop 1 modifies ghost.errMade at 0
+//@   loop 1 invariant 0 <= i && ghost(errMade, 0) == old(ghost(errMade, 0))
 
 //@ func (*conn).receiveLoop
 //@   safety[C11]
 //@   requires c != nil && c.reader != nil
-//@   loop 1 invariant true
+//@   modifies ghost.errMade at 0
+//@   ensures[C11] result.Code != "ok" && ghost(errMade, 0) == 1
+//@   loop 1 modifies ghost.errMade at 0
+//@   loop 1 invariant ghost(errMade, 0) == old(ghost(errMade, 0))
 
 //@ func (*conn).receiveMessage
 //@   safety[C11]
 //@   requires c != nil
 //@   let code = ghost(msgCode, obj(msg.msg.bytes))
+//@   modifies ghost.errMade at 0
+//@   ensures[C11] result.Code != "ok" ==> ghost(errMade, 0) == 1
+//@   ensures[C11] result.Code == "ok" ==> ghost(errMade, 0) == old(ghost(errMade, 0))
 //@   ensures[C11] result.Code == "ok" ==> code == 3 || code == 10 || code == 11 || code == 12 || code == 13
 //@   ensures[C11] insideBatch && code == 3 ==> result.Code != "ok"
 
